@@ -508,11 +508,11 @@ Definition demo_sched : list label :=
    LParse 0; LDeliver 0; LAdd; LWalkerDone; LPathsCancel; LWorkerExit 1; LWorkerExit 0; LParseCancel; LMergerExit].
 
 Example demo_run :
-  exists s, run false demo_parse (fun _ => true) demo_sched (init 2 [1; 2; 3]%N) = Some s
-            /\ terminal s = true /\ result_of s = ROk [103; 101]%N.
-Proof. eexists. split; [reflexivity|]. split; reflexivity. Qed.
+  option_map (fun s => (terminal s, result_of s))
+             (run false demo_parse (fun _ => true) demo_sched (init 2 [1; 2; 3]%N)) = Some (true, ROk [103; 101]%N).
+Proof. vm_compute. reflexivity. Qed.
 
 (* with the selects the formerly stuck state has a move *)
 Example fixed_not_stuck :
   fire true bad_parse (fun _ => true) LWalkerCancel stuck_state <> None.
-Proof. discriminate. Qed.
+Proof. vm_compute. discriminate. Qed.
